@@ -27,7 +27,10 @@ import (
 )
 
 // Denom universe: equal length, id order = string order (so DecCoins order, store key order and id order agree).
-var Denoms = []string{"aden0", "aden1", "aden2", "rwdxx", "stake", "zzzzz"}
+// the three alliance denoms are suffixes of one another and of increasing length ("aden" ⊂ "baden" ⊂ "cbaden"): key
+// builders/parsers that drop or misplace a length prefix are only exercised by related denoms of different lengths. Both the
+// lexicographic order (asset store, coins) and the length-prefixed order (index keys) coincide with the id order.
+var Denoms = []string{"aden", "baden", "cbaden", "rwdxx", "stake", "zzzzz"}
 
 const (
 	DenomReward  = 3
